@@ -251,6 +251,11 @@ func infinityTuple(r *gen.Rng) sigTuple {
 	if rr.Sign() == 0 {
 		rr = big.NewInt(7)
 	}
+	if r.Chance(1, 3) {
+		// r = x(G): an implementation that substitutes some fixed point for the
+		// identity instead of rejecting is most likely to substitute G
+		rr = oracle.Mod(oracle.G().X, bigN)
+	}
 	s := r.Below(bigN)
 	if s.Sign() == 0 {
 		s = big.NewInt(9)
